@@ -338,5 +338,26 @@ theorem add_keeps_old_class_inv {s s' : Snap} {n syn : Node} {f2o : SlotMap} {da
   refine ⟨?_, ⟨⟨⟨h1, leaderOK_survives_add hok h hc h2⟩, h3⟩, h4⟩, add_keeps_children_old h h5⟩
   rw [hcl]; exact List.mem_append_left _ hc
 
+/-- every class after a modelled insertion is a class from before or holds exactly one entry, `weakShape` of a node -/
+theorem add_nodes {s s' : Snap} {n syn : Node} {f2o : SlotMap} {data : String} {a : AppId}
+    (hok : AddOK s) (h : addNew s n f2o syn data = some (s', a)) {c : SClass} (hc : c ∈ s'.classes) :
+    c ∈ s.classes ∨ ∃ n1, c.nodes = [Node.weakShape n1] ∧ c.slots = keys f2o := by
+  obtain ⟨n1, perms, hs, _⟩ := addNew_stored h
+  obtain ⟨cnew, hcl⟩ := addNew_classes hok h
+  rw [hs] at hc
+  unfold setNew allocClass at hc
+  simp only [List.mem_map, List.mem_append, List.mem_singleton] at hc
+  obtain ⟨d, hd, rfl⟩ := hc
+  rcases hd with hd | hd
+  · left
+    have hne : (d.id == s.uf.length) = false := by
+      have := hok.2 d hd
+      simp only [beq_eq_false_iff_ne, ne_eq]; omega
+    simp only [hne]
+    exact hd
+  · right
+    subst hd
+    exact ⟨n1, by simp⟩
+
 end Snap
 end SV
